@@ -49,17 +49,20 @@ func CheckPackageOnly(
 		// same type from being detected. See case statements below for implementation.
 		reportedTypes := make(map[string]bool)
 		context.reportedTypes = &reportedTypes
+		// Selector identifiers (the "Item" of pkg.Item / value.Method) are handled with their selector
+		context.qualifiedIdents = make(map[*ast.Ident]bool)
 
 		ast.Inspect(file, func(n ast.Node) bool {
 			switch node := n.(type) {
 			case *ast.SelectorExpr:
 				// Check selector expressions like "pkg.Type" or "pkg.Function"
+				context.qualifiedIdents[node.Sel] = true
 				if v := findSelectorExprViolation(&context, node); v != nil {
 					violations = append(violations, *v)
 				}
 
 			case *ast.Ident:
-				// Check identifier usage for local package objects
+				// Check unqualified identifiers that refer to another package (dot imports)
 				if v := findIdentViolation(&context, node); v != nil {
 					violations = append(violations, *v)
 				}
@@ -79,6 +82,7 @@ type packageOnlyContext struct {
 	currentPkgName   string
 	ignoreSet        *util.IgnoreSet
 	reportedTypes    *map[string]bool
+	qualifiedIdents  map[*ast.Ident]bool
 }
 
 // findSelectorExprViolation checks selector expressions like "pkg.Type" or "pkg.Function"
@@ -123,7 +127,9 @@ func findSelectorExprViolation(
 	return nil
 }
 
-// findIdentViolation checks identifier usage for local package objects
+// findIdentViolation checks unqualified identifiers: they refer to another package
+// only through a dot import (import . "pkg"); qualified references are handled by
+// findSelectorExprViolation.
 // Returns violation or nil
 func findIdentViolation(
 	ctx *packageOnlyContext,
@@ -134,23 +140,32 @@ func findIdentViolation(
 		return nil
 	}
 
-	// Only check local package objects (imports are handled by selector expressions)
-	if obj.Pkg() == nil || obj.Pkg().Path() != ctx.currentPkgPath {
+	if ctx.qualifiedIdents[ident] {
+		return nil // the Sel of a selector expression: already checked there
+	}
+
+	pkg := obj.Pkg()
+	if pkg == nil {
 		return nil
+	}
+
+	pkgPath := pkg.Path()
+	if pkgPath == ctx.currentPkgPath {
+		return nil // Usage within the same package is always allowed
 	}
 
 	switch obj := obj.(type) {
 	case *types.TypeName:
-		return findTypeViolation(ctx, ctx.currentPkgPath, obj.Name(), ident.Pos())
+		return findTypeViolation(ctx, pkgPath, obj.Name(), ident.Pos())
 
 	case *types.Func:
 		if obj.Type() != nil && obj.Type().(*types.Signature).Recv() != nil {
 			// Method
 			recvType := util.ExtractTypeName(obj.Type().(*types.Signature).Recv().Type())
-			return findMethodViolation(ctx, ctx.currentPkgPath, recvType, obj.Name(), ident.Pos())
+			return findMethodViolation(ctx, pkgPath, recvType, obj.Name(), ident.Pos())
 		} else {
 			// Function
-			return findFunctionViolation(ctx, ctx.currentPkgPath, obj.Name(), ident.Pos())
+			return findFunctionViolation(ctx, pkgPath, obj.Name(), ident.Pos())
 		}
 	}
 
